@@ -1071,6 +1071,7 @@ def main():
         meths = []
         mmeta = {}
         meta_assigned = []
+        meta_selectors = {}
         meta_assigned_r = []
         meta_derivs = []
         meta_pads = False
@@ -1094,6 +1095,13 @@ def main():
             mid = lw.mid(fname)
             meths.append('{| m_id := %d; m_ret := %s; m_body := %s |}' % (mid, 'Some %s' % rt if rt else 'None', ir))
             mmeta[fname] = mid
+            for mm in re.finditer(r'EBin O(Lt|Le|Gt|Ge|Eq|Ne|And) \(EField (\d+)\) \(EConst (\d+) \w+\)', ir):
+                k = int(mm.group(3))
+                vals = [k, 0, k | 1, k + 1] if mm.group(1) == 'And' else [max(k - 1, 0), k, k + 1]
+                meta_selectors.setdefault(int(mm.group(2)), [])
+                for x in vals:
+                    if x not in meta_selectors[int(mm.group(2))]:
+                        meta_selectors[int(mm.group(2))].append(x)
             if fname == 'read':
                 meta_assigned_r = [int(x) for x in re.findall(r'SAssign (\d+)', ir)]
             if fname == 'write':
@@ -1108,7 +1116,7 @@ def main():
             ';\n    '.join(meths)))
         meta['classes'][n] = {'idx': cls.idx, 'bases': [b for b in cls.bases if b in world.classes], 'fields': mfields,
                               'members': [{'name': m.name, 'cls': m.kind[1], 'shift': m.shift} for m in cls.members if m.kind[0] == 'struct'],
-                              'methods': mmeta, 'assigned_in_write': meta_assigned, 'assigned_in_read': meta_assigned_r, 'derivs': meta_derivs, 'pads': meta_pads, 'ctor': ctor, 'final': cls.final, 'header': cls.header,
+                              'methods': mmeta, 'assigned_in_write': meta_assigned, 'selectors': meta_selectors, 'assigned_in_read': meta_assigned_r, 'derivs': meta_derivs, 'pads': meta_pads, 'ctor': ctor, 'final': cls.final, 'header': cls.header,
                               'has_default_ctor': cls.ctor is None or not [t for t in cls.ctor[0] if t.kind != 'eof']}
     # pseudo classes for struct members (shifted copies of the field tables)
     for K, cls, m, sub in pseudo:
